@@ -19,12 +19,13 @@ func init() {
 	Register(&Engine{
 		Name: "c11", Prop: "C11",
 		Rule: "case = (algorithm ∈ {Compare, CompareWeighted, FBP, TBE}, reference tree, 1..10 related trees on 4..10 taxa, optional fault record " +
-			"(error record / foreign, missing, extra taxon / duplicate tip / malformed text) at a drawn position, feed (real reader goroutine or harness " +
+			"(error record / foreign, missing, extra taxon / duplicate tip / malformed text) at a drawn position — sometimes up to five of them, sometimes an empty stream —, feed (real reader goroutine or harness " +
 			"producer), thread count ∈ {1,2,3,4,8,16}, schedule = strategy + choice vector + seed + enabled shared-variable sites); executed twice: " +
 			"sequentially (1 thread, run-to-block) and under the drawn schedule. Non-trivial: ≥ 2 worker goroutines each received ≥ 1 record and ≥ 1 context " +
 			"switch happened; distinct = distinct scheduler trace hashes (sequence of (goroutine, site, kind)) among those",
 		Gen: func(rt *rapid.T, tier string) any {
-			return genPipe(rt, tier, pipeGenOpts{algos: []string{"compare", "compareW", "fbp", "tbe"}, faults: true, minTax: 4, maxTax: 10, maxTrees: 10, rootedRef: true})
+			return genPipe(rt, tier, pipeGenOpts{algos: []string{"compare", "compareW", "fbp", "tbe"}, faults: true, minTax: 4, maxTax: 14, maxTrees: 10, rootedRef: true,
+				maxFaults: 5, zeroTrees: true})
 		},
 		New:  func() any { return &PipeCase{} },
 		Exec: execC11,
@@ -75,6 +76,14 @@ func execC11(t *testing.T, c any, o *Outcome) {
 		return
 	}
 	what := fmt.Sprintf("%s with %d threads vs 1 thread", pc.Algo, pc.Cpus)
+	if len(pc.Recs) == 0 {
+		// an empty stream: whether that is an error is the reader's business; the two runs must agree and terminate
+		o.Probe("empty-stream")
+		if (base.Err == nil) != (got.Err == nil) || len(base.Recs) != len(got.Recs) || base.RefOut != got.RefOut {
+			o.Fail("schedule-dependent:"+pc.Algo+":empty-stream", "%s on an empty stream: error %v / %v, %d / %d records, output %q / %q", what, base.Err, got.Err, len(base.Recs), len(got.Recs), base.RefOut, got.RefOut)
+		}
+		return
+	}
 	// error reaches the caller
 	switch pc.Algo {
 	case "compare", "compareW":
@@ -193,7 +202,7 @@ func init() {
 			"Non-trivial: ≥ 2 workers received work and ≥ 1 context switch; distinct = distinct scheduler trace hashes",
 		Gen: func(rt *rapid.T, tier string) any {
 			pc := genPipe(rt, tier, pipeGenOpts{algos: []string{"compare"}, faults: true, faultKinds: []string{"foreign", "missing", "extra", "duptip", "malformed"},
-				minTax: 4, maxTax: 9, maxTrees: 8, rootedRef: true})
+				minTax: 4, maxTax: 12, maxTrees: 8, rootedRef: true, maxFaults: 5, zeroTrees: true})
 			return &CliCase{Cmd: rapid.SampledFrom([]string{"compare", "compare-weighted", "fbp", "tbe", "tbe-taxa"}).Draw(rt, "cmd"), Ref: pc.Ref, Recs: pc.Recs,
 				Threads: rapid.SampledFrom([]int{2, 3, 4, 8}).Draw(rt, "threads"), Tips: pc.Tips, Binary: rapid.IntRange(0, 3).Draw(rt, "binary") == 0, Sched: pc.Sched}
 		},
